@@ -268,3 +268,44 @@ def r2big(x):
 def rdup_big(x):
     """Needs r:1 itself; its child needs r:2."""
     return r2big(x)
+
+
+class PayloadError(Exception):
+    """An error carrying an arbitrary payload object next to its message."""
+
+    def __init__(self, msg, payload=None):
+        super().__init__(msg)
+        self.payload = payload
+
+
+def _payload(kind):
+    import threading
+
+    if kind == "plain":
+        return None
+    if kind == "lambda":
+        return lambda: None          # pickle: AttributeError / PicklingError (local object)
+    if kind == "lock":
+        return threading.Lock()      # pickle: TypeError
+    if kind == "generator":
+        return (i for i in range(3))  # pickle: TypeError
+    if kind == "file":
+        return open("/dev/null")     # pickle: TypeError
+    if kind == "module":
+        return threading             # pickle: TypeError
+    raise AssertionError(kind)
+
+
+@task()
+def fail_payload(kind, x):
+    raise PayloadError(f"payload:{kind}:{x}", _payload(kind))
+
+
+@task()
+def mid_payload(kind, x):
+    return fail_payload(kind, x)
+
+
+@task()
+def top_payload(kind, x):
+    return [inc(x), mid_payload(kind, x)]
